@@ -412,6 +412,8 @@ func c06Gen(c *core.Ctx) {
 			post := rd.Text[toks[i].Off:]
 			emit(pre+bad+" "+post, "parser-error")
 			lx := pick(r, c06LexErrs)
+			// a lexical error alone (the tokens scanned before it may already be on their way)
+			emit(pre+lx+" "+post, "lexer-error")
 			// the lexical error one or two tokens later
 			j := min(i+1+r.IntN(2), len(toks)-1)
 			emit(rd.Text[:toks[i].Off]+bad+" "+rd.Text[toks[i].Off:toks[j].Off]+lx+" "+rd.Text[toks[j].Off:], "parser-error-then-lexer-error")
@@ -434,7 +436,7 @@ func c06Gen(c *core.Ctx) {
 			core.Do(c, c06Case{Src: rd.Text, Fault: 1 + r.IntN(len(rs)-1), Kind: "read-fault"}, c06Exec)
 		}
 	}
-	for _, s := range []string{"a | | $(", "a ) 'x", "a ;; \"${", "fi ${x", "a | | b c d e", "cat <<E <<F\nx\nE\ny\nF\n", "echo $(cat <<E\nx\nE\n) $(cat <<F\ny\nF\n)\n", "a `cat <<E\nx\nE\n` b\n", "{ cat <<E\nx\nE\n}\n", "cat <<E\nx\n", "echo $(a $(b) `c`) $((1+2))", "echo $(a | | b) 'x", "echo `a ) b` \"", "if a; then b; fi; )", "a <<E; b ) c\nx\nE\n", "$(( 1 ", "${x:-$(a | )}", "a\nb\n", "(a; b) | c & d", "{ a; } }", "for x in a b; do c; done done"} {
+	for _, s := range []string{"echo ${x", "echo 'x", "f \"x", "a b ${x", "a=1 b $(", "a; b ${", "a `x", "echo $((1", "a | | $(", "a ) 'x", "a ;; \"${", "fi ${x", "a | | b c d e", "cat <<E <<F\nx\nE\ny\nF\n", "echo $(cat <<E\nx\nE\n) $(cat <<F\ny\nF\n)\n", "a `cat <<E\nx\nE\n` b\n", "{ cat <<E\nx\nE\n}\n", "cat <<E\nx\n", "echo $(a $(b) `c`) $((1+2))", "echo $(a | | b) 'x", "echo `a ) b` \"", "if a; then b; fi; )", "a <<E; b ) c\nx\nE\n", "$(( 1 ", "${x:-$(a | )}", "a\nb\n", "(a; b) | c & d", "{ a; } }", "for x in a b; do c; done done"} {
 		emit(s, "dedicated")
 	}
 	// arithmetic: expressions with 0, 1 and >=2 faults, through Eval and Expand
@@ -465,7 +467,7 @@ func init() {
 		ID:           "C06",
 		Level:        "exploration",
 		Technique:    "runtime monitoring: Go race detector + deterministic coarse schedule controller over the verif hooks (which goroutine runs its segment first after every token hand-off, late return of the caller) + stress runs with random yields at the hook points under GOMAXPROCS 1/2/16; self-comparison of everything the caller can observe across schedules; reader-after-return, consumed-input and goroutine-accounting monitors",
-		Rule:         "a case is one input executed under many schedules: parser inputs = small generated programs (valid; followed by further lines; one misplaced token at a random index; a parser error followed by a lexical error and vice versa; two errors at the end; reader failing at a random rune) and 18 dedicated inputs; arithmetic inputs = 22 dedicated expressions with 0..3 faults and random expression trees (some made ill-formed), through Eval and through Expand of $((...)). Schedules: ALL 2^h coarse vectors x {normal, late return} for inputs with h<=7 (thorough h<=10) hand-offs, otherwise all-parser-first, all-lexer-first, alternating, single-bit flips and 32 random vectors; then 30 (thorough 200) free-running stress repetitions for each of GOMAXPROCS 1, 2, 16. Everything is built with -race. distinct_nontrivial = distinct (input, event trace) pairs, i.e. distinct interleavings of hook events actually executed.",
+		Rule:         "a case is one input executed under many schedules: parser inputs = small generated programs (valid; followed by further lines; one misplaced token at a random index; a lexical error (unterminated quote / expansion) at a random index; a parser error followed by a lexical error and vice versa; two errors at the end; reader failing at a random rune) and 18 dedicated inputs; arithmetic inputs = 22 dedicated expressions with 0..3 faults and random expression trees (some made ill-formed), through Eval and through Expand of $((...)). Schedules: ALL 2^h coarse vectors x {normal, late return} for inputs with h<=7 (thorough h<=10) hand-offs, otherwise all-parser-first, all-lexer-first, alternating, single-bit flips and 32 random vectors; then 30 (thorough 200) free-running stress repetitions for each of GOMAXPROCS 1, 2, 16. Everything is built with -race. distinct_nontrivial = distinct (input, event trace) pairs, i.e. distinct interleavings of hook events actually executed.",
 		Assumptions:  []string{"only hook-point interleavings are forced; between two hook points the race detector (happens-before based) covers unsynchronised accesses", "the runtime's random choice in select cannot be forced, only repeated (stress runs)"},
 		Race:         true,
 		GoDebug:      []string{"panicnil=1", "panicnil=1 VERIF_NOHOOKS=1"},
@@ -479,7 +481,7 @@ func init() {
 			if m.Counters["forced-releases"]*20 > m.Counters["schedule-runs"] {
 				return fmt.Sprintf("%d forced releases in %d runs: the requested schedules were often not honoured", m.Counters["forced-releases"], m.Counters["schedule-runs"])
 			}
-			for _, k := range []string{"valid", "parser-error", "parser-error-then-lexer-error", "lexer-error-then-parser-error", "read-fault", "parser-error+read-fault", "arith", "arith-random"} {
+			for _, k := range []string{"valid", "parser-error", "lexer-error", "parser-error-then-lexer-error", "lexer-error-then-parser-error", "read-fault", "parser-error+read-fault", "arith", "arith-random"} {
 				if m.Counters["inputs/"+k] < 10 {
 					return "too few inputs of kind " + k
 				}
